@@ -186,6 +186,15 @@ class _Canonical(ast.NodeTransformer):
             if isinstance(st, ast.Expr) and (isinstance(st.value, ast.Name) or (isinstance(st.value, ast.Tuple) and all(isinstance(x, ast.Name) for x in st.value.elts))):
                 continue                    # an expression statement that only names locals does nothing
             if isinstance(st, ast.Assign) and len(st.targets) == 1 and isinstance(st.targets[0], ast.Tuple) and isinstance(st.value, ast.Tuple) \
+                    and len(st.targets[0].elts) == len(st.value.elts) and all(isinstance(x, ast.Name) for x in st.targets[0].elts) \
+                    and not all(isinstance(x, ast.Name) for x in st.value.elts) and not any(isinstance(x, ast.Starred) for x in st.value.elts) \
+                    and not ({t.id for t in st.targets[0].elts} & {x.id for v in st.value.elts for x in ast.walk(v) if isinstance(x, ast.Name)}) \
+                    and len({t.id for t in st.targets[0].elts}) == len(st.targets[0].elts):
+                # `a, b = (x.p, y.q)` with no target read on the right: two assignments in the same order
+                for t, v in zip(st.targets[0].elts, st.value.elts):
+                    out.append(ast.copy_location(ast.Assign(targets=[t], value=v), st))
+                continue
+            if isinstance(st, ast.Assign) and len(st.targets) == 1 and isinstance(st.targets[0], ast.Tuple) and isinstance(st.value, ast.Tuple) \
                     and len(st.targets[0].elts) == len(st.value.elts) and all(isinstance(x, ast.Name) for x in st.targets[0].elts + st.value.elts):
                 # `a, b, c = (x, b, c)`: the self-assignments go; what is left is sequential when no target is also a source
                 pairs = [(t, v) for t, v in zip(st.targets[0].elts, st.value.elts) if t.id != v.id]
@@ -1604,6 +1613,8 @@ def canonicalise(tree: ast.Module, rel: str = "") -> ast.Module:
         canon.inline_fresh_structs(tree, ref)
         canon.inline_fresh_constants(tree, ref)
         canon.rename_fresh_members(tree, ref)
+        canon.unroll_fresh_generators(tree, ref)
+        tree = _Canonical().visit(tree)
         canon.inline_fresh_helpers(tree, ref)
         canon.rename_fresh_members(tree, ref)
         canon.restore_inlined_helpers(tree, ref)
